@@ -22,6 +22,10 @@ func genC16(p *Plan, r *RNG) {
 		genC16LastBytes(p, r)
 		return
 	}
+	if r.Chance(1, 12) {
+		genC16TwoAccepts(p, r)
+		return
+	}
 	if r.Chance(1, 6) {
 		genC16Real(p, r)
 		return
@@ -309,6 +313,41 @@ func genC16SlowControl(p *Plan, r *RNG) {
 	}
 	add(Op{Actor: "c1", Kind: "binding", At: gap(500 * ms)})
 	add(Op{Actor: "c2", Kind: "binding", At: gap(200 * ms)})
+	p.QuietNS = 40 * sec
+}
+
+// genC16TwoAccepts: two clients with TCP allocations on one listener, each with a peer of its
+// own. The announcement of the first client's inbound connection is held up in the write to
+// its control connection while the second client's peer connects: each client is told about
+// its own connection, with its own peer and connection id, and can bind it.
+func genC16TwoAccepts(p *Plan, r *RNG) {
+	baseSrvConfig(p, r)
+	p.Flavor = "tcprelay-two-accepts"
+	p.Cfg.Listener = "tcp"
+	p.Cfg.Extra = map[string]int64{"tcp_peers": 1}
+	p.Clients = []ClientSpec{{ID: "c1", Addr: "10.0.1.1:4000", User: "u1", Pass: "pw-one"}, {ID: "c2", Addr: "10.0.1.2:4013", User: "u2", Pass: "pw-two"}}
+	p.Peers = []PeerSpec{{ID: "p1", Addr: "10.0.2.1:5000"}, {ID: "p2", Addr: "10.0.2.2:5017"}}
+	add := func(o Op) int {
+		p.Ops = append(p.Ops, o)
+		return len(p.Ops)
+	}
+	add(Op{Actor: "c1", Kind: "allocate", At: gap(int64(r.Range(1, 200)) * ms), A: OpArgs{Lifetime: -1, Transport: "tcp"}})
+	add(Op{Actor: "c2", Kind: "allocate", At: gap(int64(r.Range(1, 200)) * ms), A: OpArgs{Lifetime: -1, Transport: "tcp"}})
+	add(Op{Actor: "c1", Kind: "createperm", At: gap(200 * ms), A: OpArgs{Peer: p.Peers[0].Addr}})
+	add(Op{Actor: "c2", Kind: "createperm", At: gap(100 * ms), A: OpArgs{Peer: p.Peers[1].Addr}})
+	x := add(Op{Actor: "p1", Kind: "peer_connect", At: gap(int64(r.Range(200, 600)) * ms), A: OpArgs{Target: "c1", N: 0}})
+	park := r.PickI64([]int64{300 * ms, sec, 3 * sec})
+	p.Stalls = append(p.Stalls, Stall{M: Match{Class: "sock:listener-conn:Write", Args: "*", Nth: 1}, ParkNS: park, AfterOp: x})
+	add(Op{Actor: "p2", Kind: "peer_connect", At: gap(r.PickI64([]int64{park / 3, park / 2, park - 10*ms})), A: OpArgs{Target: "c2", N: 0}})
+	if r.Chance(1, 2) {
+		add(Op{Actor: "p2", Kind: "peer_connect", At: gap(10 * ms), A: OpArgs{Target: "c2", N: 0}})
+	}
+	add(Op{Actor: "c2", Kind: "connbind", At: gap(park + int64(r.Range(100, 500))*ms), A: OpArgs{N: 0}})
+	add(Op{Actor: "c1", Kind: "connbind", At: gap(int64(r.Range(100, 500)) * ms), A: OpArgs{N: 0}})
+	add(Op{Actor: "p1", Kind: "peer_data", At: gap(200 * ms), A: OpArgs{N: 0, Len: 100}})
+	add(Op{Actor: "p2", Kind: "peer_data", At: gap(100 * ms), A: OpArgs{N: 0, Len: 100}})
+	add(Op{Actor: "c1", Kind: "binding", At: gap(500 * ms)})
+	add(Op{Actor: "c2", Kind: "binding", At: gap(100 * ms)})
 	p.QuietNS = 40 * sec
 }
 
